@@ -130,7 +130,11 @@ def analyse(t, hole: Q) -> Q | None:
             if b.carrier == "const":
                 return a.then(f"{h} const")
             if a.carrier == b.carrier:
-                return a.then(f"{h}")
+                r = a.then(f"{h}")
+                r.issues = list(a.issues) + [i for i in b.issues if i not in a.issues]
+                r.via_float = a.via_float or b.via_float
+                r.ops = a.ops + [o for o in b.ops if o not in a.ops] + [h]
+                return r
         return None
     if h == "timedelta":
         # ["timedelta", [["milliseconds", X]]]
@@ -199,6 +203,12 @@ def analyse(t, hole: Q) -> Q | None:
         inner = analyse(t[1], hole)
         if inner is None:
             return None
+        if inner.carrier == "datetime" and len(t) == 3 and t[2] in ("microsecond", "second", "minute", "hour"):
+            unit = {"microsecond": "us", "second": "s"}.get(t[2])
+            return inner.then(f".{t[2]} (wall-clock field)", carrier="int", unit=unit, issues=inner.issues + [
+                f"T-wallclock: .{t[2]} is a field of the local (wall-clock) time of the datetime's own zone, timestamp() is the instant: "
+                f"they only agree when the UTC offset is a whole number of {'seconds' if t[2] == 'microsecond' else 'minutes'} -- "
+                f"with tzinfo=timezone(timedelta(milliseconds=250)) the value is written 750 ms off"])
         return inner.then(f".{t[2]}")
     if h in ("max", "min"):
         return analyse(t[1], hole)
@@ -292,6 +302,8 @@ def write_side(conv, wire_bits: int, kind: str):
     for iss in q.issues:
         if iss.startswith("T-epoch"):
             out.append(("T-epoch", iss[9:], "epoch"))
+        if iss.startswith("T-wallclock"):
+            out.append(("T-epoch", iss[13:], "wall-clock field"))
     if q.carrier != "int":
         out.append(("T-int", f"conversion does not end in an integer: {q.show()}", q.ops[-1]))
     elif q.unit not in ("ms", None):
